@@ -14,6 +14,7 @@ pub fn wide_types(quick: bool) -> Vec<Ty> {
     let u = Ty::U;
     let mut v = vec![
         u(8), Ty::Bool, u(1), u(16), Ty::tup(vec![u(8), u(16)]), Ty::opt(u(8)), Ty::either(u(8), u(16)), Ty::arr(u(8), 2), Ty::list(u(8), 4), Ty::unit(), u(2), Ty::tup(vec![u(8)]),
+        Ty::tup(vec![Ty::either(u(8), u(256)), Ty::either(u(8), u(8)), Ty::either(u(8), u(8))]),
     ];
     if !quick {
         v.extend([u(256), u(64), Ty::arr(u(8), 3), Ty::list(Ty::Bool, 2), Ty::opt(Ty::tup(vec![u(1), u(8)])), Ty::either(Ty::unit(), Ty::Bool), Ty::tup(vec![Ty::Bool, u(1), u(2)]), Ty::arr(u(1), 5), Ty::list(u(16), 8)]);
